@@ -21,9 +21,10 @@ RULE = ("seeded random circuits (2-6 modes, 0-4 loss elements anywhere incl. los
 MANDATORY = ["lossy_slos", "lossy_permanent", "vacuum_input", "total_loss_element", "bunched_input",
              "heralded", "lossless", "seven_or_more_modes", "other_sampler_defaults_edited_in_place", "herald_declared_in_place"]
 DECIDING = ["mon.sampler_dist_postconditions", "mon.backend_dist_postconditions:slos",
-            "mon.backend_dist_postconditions:permanent", "cross_backend_comparisons"]
+            "mon.backend_dist_postconditions:permanent", "cross_backend_comparisons", "end_to_end_comparisons"]
 BUDGET = {"quick": 25, "thorough": 420}
-ASSUMPTIONS = ["reference = own permanent over the circuit's own U_full, summed over loss-mode patterns",
+ASSUMPTIONS = ["reference = own permanent over the circuit's own U_full, summed over loss-mode patterns; in addition the "
+               "heralded visible distribution is compared with the one the wire model of the construction history gives",
                "allowed deviation per entry and for the total: 1e-9 x (number of full output patterns) + 1e-9, "
                "the documented per-state truncation"]
 
@@ -138,6 +139,37 @@ def run(ctx):
                 if worst > allow:
                     ctx.violation(f"permanent and slos distributions differ by {worst:.3g}", case=case,
                                   mechanism="backends_disagree", monitor="cross-backend comparison")
+            if dists and (heralded or rng.random() < 0.5):
+                # end to end: the heralded visible distribution of the circuit *as it was built* (wire model, not U_full)
+                try:
+                    ref = circmon.described_distribution(c, occ)
+                except Exception as e:  # noqa: BLE001
+                    ref = None
+                    ctx.count("described_reference_error:" + type(e).__name__)
+                if ref is None:
+                    ctx.count("described_reference_unavailable")
+                else:
+                    rd, npat, nlw = ref
+                    h_out = c.heralds["output"]
+                    kf = boson.n_fock(u.shape[0], nph + hph)
+                    for backend, d in dists.items():
+                        ctx.count("end_to_end_comparisons")
+                        got: dict = {}
+                        for st, p in d.items():
+                            if all(st[m] == x for m, x in h_out.items()):
+                                key = tuple(x for m, x in enumerate(st) if m not in h_out)
+                                got[key] = got.get(key, 0.0) + p
+                        for key in set(rd) | set(got):
+                            r_, g_ = rd.get(key, 0.0), got.get(key, 0.0)
+                            if sum(key) == 0 and nlw and not any(h_out.values()):
+                                a_key = 1e-9 * kf + 1e-9      # the all-vacuum state absorbs whatever was truncated elsewhere
+                            else:
+                                a_key = 1e-9 * npat.get(key, 1) + 1e-10
+                            if abs(r_ - g_) > a_key:
+                                ctx.violation(f"Sampler({backend}): heralded probability of {list(key)} is {g_:.10f}; the circuit "
+                                              f"as built (wire model) gives {r_:.10f} (allowed {a_key:.2g})", case=case,
+                                              mechanism="end_to_end_value", monitor="wire-model distribution")
+                                break
             if dists and rng.random() < 0.3 and c.input_modes >= 2:
                 # a herald is declared on the circuit in place after the samplers exist; the matching shorter input is
                 # then assigned to the same sampler, which must give the distribution of the new configuration
